@@ -195,7 +195,7 @@ def rule_l2(ctx):
             else:
                 res.bad(Finding("L2", body.id, site + " without length test",
                                 "children are paired positionally without testing that there are equally many: missing or surplus fields are accepted", t["sp"]))
-    if n < 1:
+    if (n < 1) and not res.findings:
         raise AnchorMissing("L2: is_of_type contains no zip (the tuple / enum arms are expected to pair children positionally)")
     return res
 
@@ -325,7 +325,7 @@ def rule_l4(ctx):
             res.bad(Finding("L4", f["id"], "setter encodes something else", "the encoded value is not the argument", t["sp"]))
         else:
             res.ok({"setter": nm, "width": w})
-    if n < 9:
+    if (n < 9) and not res.findings:
         raise AnchorMissing("L4: expected the ten integer setters of Evaluator, found %d" % n)
     return res
 
